@@ -20,6 +20,7 @@ import (
 	"runtime"
 	"slices"
 	"strings"
+	"sync"
 
 	"golang.org/x/tools/go/ssa"
 )
@@ -226,8 +227,11 @@ func visitInstr(fr *frame, instr ssa.Instruction) continuation {
 			}
 		case symBool:
 			fr.noteSymBranch()
-			if SlowLog {
+			if SlowLog || ForkLog {
 				pos := fr.fn.Prog.Fset.Position(instr.Pos())
+				if ForkLog && !fr.i.px.replaying() {
+					fmt.Fprintf(os.Stderr, "FORK if %s:%d in %s decisions=%v\n", shortFile(pos.Filename), pos.Line, fr.fn, fr.i.px.decisions)
+				}
 				fr.i.px.curLabel = fmt.Sprintf("if %s:%d", shortFile(pos.Filename), pos.Line)
 			}
 			if fr.i.px.forkBool(c.t) {
@@ -357,7 +361,7 @@ func visitInstr(fr *frame, instr ssa.Instruction) continuation {
 		}
 		key := fr.mapKey(fr.get(instr.Key))
 		v := fr.get(instr.Value)
-		m.insert(key, v)
+		m.insertSym(fr, key, v)
 
 	case *ssa.TypeAssert:
 		fr.env[instr] = typeAssert(fr.i, instr, fr.get(instr.X).(iface))
@@ -445,9 +449,10 @@ func callSSA(i *interpreter, caller *frame, callpos token.Pos, fn *ssa.Function,
 		caller: caller,
 		fn:     fn,
 	}
+	meta := fnMetaOf(fn)
 	if fn.Parent() == nil {
-		name := fn.String()
-		if ext := externals[name]; ext != nil {
+		name := meta.name
+		if ext := meta.ext; ext != nil {
 			return ext(fr, args)
 		}
 		if fn.Pkg != nil && fn.Name() == "init" && fn == fn.Pkg.Func("init") && !initSet[fn.Pkg.Pkg.Path()] && fn.Pkg != i.mainPkg {
@@ -466,7 +471,7 @@ func callSSA(i *interpreter, caller *frame, callpos token.Pos, fn *ssa.Function,
 			return havocCall(fr, fn, args)
 		}
 		if fn.Synthetic == "" || fn.Pkg != nil {
-			pp := pkgPathOf(fn)
+			pp := meta.pkgPath
 			if pp != "" && !i.interpreted[pp] {
 				px.abort("missing-external", "%s", name)
 			}
@@ -484,10 +489,8 @@ func callSSA(i *interpreter, caller *frame, callpos token.Pos, fn *ssa.Function,
 		px.abort("depth", "call depth %d exceeded in %s", px.maxDepth(), fn)
 	}
 	defer func() { px.depth-- }()
-	if px.funcs != nil {
-		if pp := pkgPathOf(fn); pp == i.mainPkg.Pkg.Path() || strings.HasSuffix(pp, "x/exp/rand") {
-			px.funcs[fn.String()] = true
-		}
+	if px.funcs != nil && meta.report {
+		px.funcs[meta.name] = true
 	}
 
 	fr.env = make(map[ssa.Value]value, len(fn.Params)+len(fn.FreeVars)+8)
@@ -507,6 +510,28 @@ func callSSA(i *interpreter, caller *frame, callpos token.Pos, fn *ssa.Function,
 		runFrame(fr)
 	}
 	return fr.result
+}
+
+var ForkLog = os.Getenv("VCHECK_FORKLOG") != ""
+
+type fnMeta struct {
+	name    string
+	ext     externalFn
+	pkgPath string
+	report  bool
+}
+
+var fnMetaCache sync.Map
+
+func fnMetaOf(fn *ssa.Function) *fnMeta {
+	if m, ok := fnMetaCache.Load(fn); ok {
+		return m.(*fnMeta)
+	}
+	m := &fnMeta{name: fn.String(), pkgPath: pkgPathOf(fn)}
+	m.ext = externals[m.name]
+	m.report = strings.HasPrefix(m.pkgPath, "github.com/sealdice/dicescript") || strings.HasSuffix(m.pkgPath, "x/exp/rand")
+	fnMetaCache.Store(fn, m)
+	return m
 }
 
 func (px *pathCtx) maxDepth() int {
